@@ -34,14 +34,13 @@ def nonspace(text):
     return [c for c in text if c not in WHITE]
 
 
-def visible_chars(text):
-    """The characters that must survive box generation, as a multiset: tables move captions, headers and
-    footers, and the anonymous-table rules drop text that Python's `\\s` calls white space (for NBSP and
-    other non-CSS white space that is the known finding unicode-space-between-table-parts-dropped)."""
-    return sorted(c for c in text if not re.match('\\s', c))
-
-
 CSS_WHITE = ' \t\n\r\f'      # the characters the white-space property acts on (css-text-3 4.1)
+
+
+def visible_chars(text):
+    """The characters that must survive box generation, as a multiset (tables move captions, headers and
+    footers): everything but CSS white space.  NBSP, U+2003, U+2028 ... are text."""
+    return sorted(c for c in text if c not in CSS_WHITE)
 
 
 def reference_transform(text, text_transform, hyphens):
@@ -146,31 +145,41 @@ def required_chars(text, ws, processed_by_pw=False):
     white space; under pre / pre-wrap every character (spaces, tabs and newlines are content there)."""
     if ws in COLLAPSE:
         return [c for c in text if c not in CSS_WHITE]
-    if processed_by_pw:
+    if processed_by_pw == 'every-run':      # a document: every element's box goes through process_whitespace
         text = text.replace('\r\n', '\n').replace('\r', '\n')
+    elif processed_by_pw:
+        # one call on a tree: line feeds are normalised in the runs process_whitespace enters and left alone
+        # in the others (inside atomic inlines and blocks); `ifc_violation` states the exact text of the former
+        return [c for c in text if c not in '\r\n']
     return list(text)
 
 
 def box_segments(box, out=None):
     """Text runs of a real box tree before a rewriting step: (text, white-space, may_vanish).
     A run may vanish only where a specification says so: white-space-only text that is a direct child
-    of a flex / grid container (css-flexbox-1 4, css-grid-2 6.1) or sits among internal table boxes
-    (CSS 2.1 17.2.1 rules 1.3 / 1.4), and anything inside a column / column group.  Text that Python's
-    `\\s` calls white space but CSS does not (NBSP, U+2003, U+2028) among table parts is the known
-    finding unicode-space-between-table-parts-dropped."""
+    of a flex / grid container (css-flexbox-1 4, css-grid-2 6.1), that sits between two internal table
+    boxes / captions (CSS 2.1 17.2.1 rule 1.4) or is the first / last child of a tabular container next to
+    one (rule 1.3) - the anonymous wrappers re-apply the rules to contiguous runs of the same children, so
+    the neighbours are those of the input -, and anything inside a column / column group.  White space is CSS
+    white space: NBSP, U+2003, U+2028 among table parts are text and must stay."""
     from weasyprint.formatting_structure import boxes
     out = [] if out is None else out
     if isinstance(box, (boxes.TableColumnBox, boxes.TableColumnGroupBox)):
         return out
     kids = list(getattr(box, 'children', ()))
-    table_context = box.tabular_container or any(k.internal_table_or_caption for k in kids)
+    internal = [bool(k.internal_table_or_caption) for k in kids]
     item_context = isinstance(box, (boxes.FlexContainerBox, boxes.GridContainerBox))
-    for kid in kids:
+    last = len(kids) - 1
+    for i, kid in enumerate(kids):
         if isinstance(kid, boxes.TextBox):
             text = kid.text
             css_white = all(c in CSS_WHITE for c in text)
-            py_white = re.search('\\S', text) is None
-            may_vanish = (css_white and (item_context or table_context)) or (py_white and table_context)
+            before, after = i > 0 and internal[i - 1], i < last and internal[i + 1]
+            # rule 1.4: between two internal table boxes / captions, under any parent; rule 1.3: first or last
+            # child of a tabular container, next to an internal table box / caption
+            between = before and after
+            edge = bool(box.tabular_container) and last >= 1 and ((i == last and before) or (i == 0 and after))
+            may_vanish = css_white and (item_context or between or edge)
             out.append((text, kid.style['white_space'], may_vanish))
         else:
             box_segments(kid, out)
@@ -236,24 +245,164 @@ def ws_violation(ws, text, fcs, out):
     return None
 
 
-def threading_violation(texts, fcs=False):
-    """CSS 2.1 16.6.1 across the text runs of one inline formatting context: [(text, white-space)] all
-    collapsing, processed by the real process_whitespace inside one inline box."""
+def reference_run(text, ws):
+    """CSS 2.1 16.6.1 steps 1-4 on one text run taken alone (css-text-3 4.1.1 / 4.1.2)."""
+    text = text.replace('\r\n', '\n').replace('\r', '\n')
+    if ws in COLLAPSE:
+        text = re.sub('[ \t]*\n[ \t]*', '\n', text)                   # spaces and tabs around a line feed
+    if ws in ('normal', 'nowrap'):
+        text = text.replace('\n', ' ')                                 # segment breaks become spaces
+    if ws in COLLAPSE:
+        text = re.sub('[ \t]+', ' ', text)                             # tabs -> spaces, runs -> one space
+    return text
+
+
+def ifc_expectations(box, fcs):
+    """CSS 2.1 16.6.1 step 4 across one inline formatting context: "a collapsible space following another
+    collapsible space - even one outside the boundary of the inline containing that space, provided both are
+    within the same inline formatting context - is removed".  -> [(text box, original text, expected text |
+    None)] in tree order, computed before the call.  A preserved run (pre, pre-wrap), an atomic inline or a
+    block in flow ends the 'previous character is a collapsible space' state; empty texts and out-of-flow boxes
+    do not touch it.  Not judged (None): text inside out-of-flow boxes (another formatting context; how the
+    code threads the state there is the finding out-of-flow-container-spaces-not-collapsed) and inside boxes
+    process_whitespace does not enter."""
     from weasyprint.formatting_structure import boxes
-    kids = [boxes.TextBox('span', bt.style_from('-', ws), None, text) for text, ws in texts]
-    parent = boxes.InlineBox('span', bt.style_from('-', 'normal'), None, kids)
+    out = []
+
+    def unjudged(b):
+        for child in getattr(b, 'children', ()):
+            if isinstance(child, boxes.TextBox):
+                out.append((child, child.text, None))
+            else:
+                unjudged(child)
+
+    def visit(b, state):
+        for child in b.children:
+            if isinstance(child, boxes.TextBox):
+                if not child.is_in_normal_flow():
+                    out.append((child, child.text, None))
+                    continue
+                if not child.text:
+                    out.append((child, child.text, ''))
+                    continue
+                ws = child.style['white_space']
+                alone = reference_run(child.text, ws)
+                if ws in COLLAPSE:
+                    out.append((child, child.text, alone[1:] if state and alone.startswith(' ') else alone))
+                    state = alone.endswith(' ')
+                else:
+                    out.append((child, child.text, alone))
+                    state = False
+            elif isinstance(child, boxes.InlineBox):
+                if child.is_in_normal_flow():
+                    state = visit(child, state)
+                else:
+                    unjudged(child)
+            else:
+                unjudged(child)
+                if child.is_in_normal_flow():
+                    state = False
+        return state
+    if isinstance(box, boxes.TextBox) or not box.is_in_normal_flow():
+        return None
+    visit(box, fcs)
+    return out
+
+
+def ifc_violation(expectations, what='process_whitespace'):
+    """Compare the texts after the call with `ifc_expectations` taken before it."""
+    if expectations is None:
+        return None
+    for i, (tbox, original, expected) in enumerate(expectations):
+        if expected is not None and tbox.text != expected:
+            before = [(o, b.style['white_space']) for b, o, _ in expectations[:i + 1]]
+            return (f'{what}: white space across the runs of one inline formatting context: run {i} '
+                    f'{original!r} (white-space: {tbox.style["white_space"]}) became {tbox.text!r}, expected '
+                    f'{expected!r} after {before[:-1]!r}')
+    return None
+
+
+def threading_violation(texts, fcs=False, nested=()):
+    """CSS 2.1 16.6.1 across the text runs of one inline formatting context: [(text, white-space)] (any
+    white-space values), processed by the real process_whitespace inside one inline box; the runs whose index
+    is in `nested` sit in an inline box of their own."""
+    from weasyprint.formatting_structure import boxes
+    texts = [tuple(t) for t in texts]
+    kids = [boxes.TextBox('span', bt.style_from('-', ws), None, text or 'x') for text, ws in texts]
+    for k, (text, _) in zip(kids, texts):
+        k.text = text
+    children = [boxes.InlineBox('span', bt.style_from('-', k.style['white_space']), None, [k]) if i in nested else k
+                for i, k in enumerate(kids)]
+    parent = boxes.InlineBox('span', bt.style_from('-', 'normal'), None, children)
+    expectations = ifc_expectations(parent, fcs)
     try:
         build_mod().process_whitespace(parent, fcs)
     except Exception as exc:  # noqa: BLE001
         return f'process_whitespace raised {type(exc).__name__} on {texts!r}'
-    out = ''.join(k.text for k in kids)
-    if '  ' in out:
-        return f'two consecutive spaces across text boxes: {texts!r} -> {[k.text for k in kids]!r}'
-    if fcs and out.startswith(' '):
-        return f'a space follows a collapsible space: {texts!r} -> {[k.text for k in kids]!r}'
+    what = ifc_violation(expectations)
+    if what:
+        return what
+    if all(ws in COLLAPSE for _, ws in texts):
+        out = ''.join(k.text for k in kids)
+        if '  ' in out:
+            return f'two consecutive spaces across text boxes: {texts!r} -> {[k.text for k in kids]!r}'
+        if fcs and out.startswith(' '):
+            return f'a space follows a collapsible space: {texts!r} -> {[k.text for k in kids]!r}'
     source = ''.join(t for t, _ in texts)
+    out = ''.join(k.text for k in kids)
     if nonspace(out) != nonspace(source):
         return f'characters changed: {texts!r} -> {[k.text for k in kids]!r}'
+    return None
+
+
+def anonymous_table_violation(root):
+    """CSS 2.1 17.2.1 rule 3.2 (css-tables-3 3.7.1 step 3.2) on the result of anonymous_table_boxes, where the
+    parent of an anonymous table wrapper still is the box it was generated from: the anonymous table around
+    misparented table parts is an inline-table iff that parent is an inline box, and a table otherwise (block
+    container, inline-block, flex / grid container, cell, caption ...); the wrapper is an inline-block iff
+    the table is an inline-table."""
+    from weasyprint.css import AnonymousStyle
+    from weasyprint.formatting_structure import boxes
+    for box, parent in walk_real(root):
+        if parent is None or parent.is_running() or not box.is_table_wrapper:
+            continue
+        if not isinstance(box.style, AnonymousStyle) or box.element is not parent.element:
+            continue
+        for table in box.children:
+            if (isinstance(table, boxes.TableBox) and isinstance(table.style, AnonymousStyle) and
+                    table.element is parent.element):
+                inline_parent = isinstance(parent, boxes.InlineBox)
+                if inline_parent != isinstance(table, boxes.InlineTableBox):
+                    return (f'the anonymous table generated for table parts inside a {type(parent).__name__} is a '
+                            f'{type(table).__name__} (an inline-table goes inside inline boxes only, a block-level '
+                            'table everywhere else)')
+                if isinstance(table, boxes.InlineTableBox) != isinstance(box, boxes.InlineBlockBox):
+                    return f'the wrapper of an anonymous {type(table).__name__} is a {type(box).__name__}'
+    return None
+
+
+def document_anonymous_table_violation(root):
+    """The same on a final box tree of a document: the box an anonymous table was generated from is the
+    principal box of its element (or an anonymous box that is not an inline box)."""
+    from weasyprint.css import AnonymousStyle
+    from weasyprint.formatting_structure import boxes
+    principal = {}
+    for box, _ in walk_real(root):
+        # the block flex_children / grid_children put around an inline-level item shares the item's style
+        item_wrapper = (type(box) is boxes.BlockBox and (box.is_flex_item or box.is_grid_item) and
+                        box.style['display'][0] == 'inline')
+        if (not isinstance(box.style, AnonymousStyle) and box.element is not None and not item_wrapper and
+                not isinstance(box, boxes.TextBox) and '::' not in (box.element_tag or '')):
+            principal.setdefault(id(box.element), box)
+    for box, parent in walk_real(root):
+        if (isinstance(box, boxes.TableBox) and isinstance(box.style, AnonymousStyle) and parent is not None and
+                parent.is_table_wrapper and parent.element is box.element and not box.is_running()):
+            owner = principal.get(id(box.element))
+            if owner is None or owner.is_running() or isinstance(owner, boxes.TableBox):
+                continue
+            if isinstance(owner, boxes.InlineBox) != isinstance(box, boxes.InlineTableBox):
+                return (f'the anonymous table generated for table parts inside the {type(owner).__name__} of '
+                        f'<{owner.element_tag} n={owner.element.get("n")}> is a {type(box).__name__}')
     return None
 
 
@@ -313,11 +462,7 @@ def tables_violation(box, allow_known=True):
     for child in getattr(box, 'children', ()):
         if (isinstance(child, boxes.TableBox) and not box.is_table_wrapper and not box.is_running() and
                 not child.is_running()):
-            # known finding inline-table-item-loses-wrapper: flex_children / grid_children replace the
-            # inline-block wrapper of an inline-table by a plain anonymous block
-            known = type(child) is boxes.InlineTableBox and (box.is_flex_item or box.is_grid_item)
-            if not (allow_known and known):
-                return f'{type(child).__name__} is not inside a table wrapper'
+            return f'{type(child).__name__} is not inside a table wrapper'
         what = tables_violation(child, allow_known)
         if what:
             return what
@@ -335,6 +480,24 @@ def tables_violation(box, allow_known=True):
             what = group_slots_violation(group, allow_known)
             if what:
                 return what
+        # CSS 2.1 17.2: only the first table-header-group / table-footer-group is a header / footer; the
+        # header comes first, the footer last
+        groups = list(box.children)
+        headers = [g for g in groups if getattr(g, 'is_header', False)]
+        footers = [g for g in groups if getattr(g, 'is_footer', False)]
+        if len(headers) > 1 or len(footers) > 1:
+            return f'a table with {len(headers)} header and {len(footers)} footer groups'
+        if headers and headers[0] is not groups[0]:
+            return 'the header group is not the first row group of the table'
+        if footers and footers[0] is not groups[-1]:
+            return 'the footer group is not the last row group of the table'
+        for flag, display, found in (('header', ('table-header-group',), headers),
+                                     ('footer', ('table-footer-group',), footers)):
+            styled = [g for g in groups if g.style['display'] == display]
+            if styled and not found:
+                return f'a table with a {display[0]} but no {flag}'
+            if found and found[0].style['display'] != display:
+                return f'the {flag} of the table has display {found[0].style["display"]}'
     return None
 
 
@@ -347,6 +510,18 @@ def group_slots_violation(group, allow_known=True):
                 return 'cell without grid_x'
             if y + cell.rowspan > n_rows or cell.rowspan < 1:
                 return f'rowspan {cell.rowspan} of a cell in row {y} leaves its group of {n_rows} rows'
+            if cell.colspan < 1:
+                return f'a cell with colspan {cell.colspan} owns no grid slot (HTML: colspan is clamped to >= 1)'
+            # the rectangle is the one the attributes ask for (HTML 4.9.11): colspan as written (at least 1),
+            # rowspan clipped to the row group, rowspan=0 = down to the end of the group
+            want_cols, want_rows = bt.parse_attr(cell.element, 'colspan'), bt.parse_attr(cell.element, 'rowspan')
+            if cell.colspan != (max(want_cols, 1) if want_cols is not None else 1):
+                return f'a cell with colspan={cell.element.get("colspan")!r} spans {cell.colspan} columns'
+            if want_rows is None or want_rows >= 0:
+                expect = n_rows - y if want_rows == 0 else min(1 if want_rows is None else want_rows, n_rows - y)
+                if cell.rowspan != expect:
+                    return (f'a cell with rowspan={cell.element.get("rowspan")!r} in row {y} of a group of {n_rows} '
+                            f'rows spans {cell.rowspan} rows, expected {expect}')
             for yy in range(y, y + cell.rowspan):
                 for xx in range(cell.grid_x, cell.grid_x + cell.colspan):
                     if (yy, xx) in owner:
@@ -922,7 +1097,7 @@ EXPECTED_BRANCHES = {
     'documents': ['doc:marker-outside', 'doc:marker-inside', 'doc:marker-filler', 'doc:marker-content',
                   'doc:before', 'doc:after', 'doc:quote', 'doc:tt-uppercase', 'doc:tt-lowercase', 'doc:tt-capitalize',
                   'doc:tt-full-width', 'doc:hyphens-none', 'doc:blockified', 'doc:tail-merged', 'doc:display-none',
-                  'doc:pseudo-list-item', 'error:KeyError', 'error:AttributeError'],
+                  'doc:pseudo-list-item', 'error:AttributeError'],
 }
 
 
@@ -944,7 +1119,8 @@ class C08(PropCheck):
         'element_to_box (structure only) and computed_values.display / compute_float as hand-written Lean functions',
         'class tests are issubclass tables regenerated from boxes.py; the three white-space regular expressions are '
         'mirrored by scanners (pattern strings regenerated and pinned by a theorem; behaviour tied by correspondence)',
-        'unicodedata.category / str.upper / re \\s are tabulated from the Python runtime over a fixed alphabet',
+        'unicodedata.category / str.upper are tabulated from the Python runtime over a fixed alphabet; the character '
+        'class of build.is_whitespace is the graph of the real function over the same alphabet',
     )
     assumptions = (
         'kind-trees keep of a box only what build.py reads or writes (class, float/position/white-space/'
@@ -956,6 +1132,7 @@ class C08(PropCheck):
     # ---- correspondence -------------------------------------------------------------------
     def correspondence(self, run):
         docs.quiet()
+        self._regression_section(run)
         self._text_sections(run)
         self._display_section(run)
         self._tree_sections(run)
@@ -970,6 +1147,34 @@ class C08(PropCheck):
                     never[sec.name] = missing
         run.extra['branches_expected'] = {k: len(v) for k, v in EXPECTED_BRANCHES.items()}
         run.extra['branches_never_hit'] = never
+
+    def _regression_section(self, run):
+        """corpus/C08/regressions.json first: the inputs of repaired findings (`fixed:` lines) and of earlier
+        disagreements, through the same commands, judges and replays as the generated cases."""
+        import json
+        from vlib.paths import CORPUS
+        sec = run.section(
+            'regressions', 'corpus/C08/regressions.json: minimal inputs of repaired findings (inline-table flex / '
+            'grid item keeps its wrapper, NBSP-like text between table parts stays, ::marker{display:none}) and of '
+            'past disagreements, as trees (pipeline / atb / flex / grid / iib / pw) and as documents; non-trivial = all')
+        for case in json.loads((CORPUS / 'C08' / 'regressions.json').read_text()):
+            tags = [f'regression:{case["id"]}']
+            if case['fn'] == 'e2b':
+                kids, body_text = case['kids'], case.get('body_text', '')
+                html = document_html(kids, body_text)
+                out = docs.outcome(lambda: show(formatting_structure(html)))
+                sec.add(sx.line('e2b', document_wire(kids, body_text)), out,
+                        meta={'fn': 'e2b', 'html': html, 'kids': kids, 'body_text': body_text, 'case': case['id']},
+                        tags=tags)
+            elif case['fn'] == 'pw':
+                box = bt.make_real(case['tree'])
+                before = bt.ser(box)
+                ret = docs.outcome(lambda: build_mod().process_whitespace(box, case['fcs']))
+                out = ret if isinstance(ret, str) else f'{str(bool(ret)).lower()} {show(box)}'
+                sec.add(sx.line('pw', case['fcs'], before), out,
+                        meta={'fn': 'pw', 'tree': case['tree'], 'fcs': case['fcs'], 'case': case['id']}, tags=tags)
+            else:
+                self._tree_case(sec, case['fn'], case['tree'], tags=tags, nontrivial=True)
 
     def _text_sections(self, run):
         from weasyprint.formatting_structure import boxes
@@ -1372,8 +1577,17 @@ class C08(PropCheck):
         if fn == 'ptext':
             if impl.startswith('err:'):
                 return f'process_whitespace raised {impl} on {meta["text"]!r}'
-            out = ''.join(chr(int(c)) for c in sx.loads_line(impl)[0])
-            return ws_violation(meta['ws'], meta['text'], meta['fcs'], out)
+            fields = sx.loads_line(impl)
+            out = ''.join(chr(int(c)) for c in fields[0])
+            what = ws_violation(meta['ws'], meta['text'], meta['fcs'], out)
+            if what is None and len(fields) == 3 and meta['text']:
+                # the state handed to the next run: "the text ended with a collapsible space"
+                alone = reference_run(meta['text'], meta['ws'])
+                expect = meta['ws'] in COLLAPSE and alone.endswith(' ')
+                if str(fields[2]) != str(expect).lower():
+                    what = (f'process_whitespace({meta["text"]!r}, white-space: {meta["ws"]}) tells the next run that '
+                            f'a collapsible space precedes it: {fields[2]}, expected {str(expect).lower()}')
+            return what
         if fn == 'cap':
             if impl.startswith('err:'):
                 return f'capitalize raised {impl}'
@@ -1381,6 +1595,8 @@ class C08(PropCheck):
             return capitalize_violation(meta['text'], out)
         if fn == 'blockify':
             return blockify_violation(meta['value'], meta['float'], meta['position'], meta['root'], meta['result'])
+        if fn == 'content':
+            return content_violation(meta['items'], meta['quotes'], meta['depth'])
         if fn == 'boxtype':
             if impl.startswith('err:') and not d['model'].startswith('err:'):
                 return f'display {meta["value"]} has no box class'
@@ -1394,6 +1610,9 @@ class C08(PropCheck):
         if fn == 'e2b':
             if known_document(meta['kids']):
                 return None     # in the scope of a known finding: no clause can be judged on this document
+            if impl.startswith('err:'):
+                return (f'build_formatting_structure raised {impl[4:]}: the elements of the document generate no '
+                        'box at all')
             return document_violation(meta['html'], meta['kids'], meta['body_text'])
         return None
 
@@ -1407,6 +1626,7 @@ class C08(PropCheck):
         source = real_text(box)
         segments = box_segments(box)
         expectations = transform_expectations(box) if fn == 'ptt' else None
+        ifc = ifc_expectations(box, meta['fcs']) if fn == 'pw' and not has_running(node) else None
         empty_groups = empty_column_groups(box) if fn in ('atb', 'pipeline') else []
         malformed = 'LineBox' in bt.kinds_of(node)
         try:
@@ -1426,6 +1646,10 @@ class C08(PropCheck):
             flow = flow_text(result)
             if flow is not None and '  ' in flow:
                 return f'two consecutive spaces in the inline content after process_whitespace: {flow!r}'
+        if fn == 'pw':
+            what = ifc_violation(ifc)
+            if what:
+                return what
         if visible_chars(after) != visible_chars(source) and not has_running(node):
             return f'{TREE_FUNCTIONS.get(fn, fn)} changed the text: {source!r} -> {after!r}'
         if not has_running(node) and not malformed:
@@ -1437,8 +1661,14 @@ class C08(PropCheck):
                 if len(group.children) != span:
                     return (f'an empty column group with span={span} got {len(group.children)} columns '
                             '(HTML 4.9.3: the group represents `span` columns)')
+        if fn in ('atb', 'pipeline') and not malformed and not has_running(node):
+            # rule 3.2 is judged where the generating parent still is the parent: right after the table pass
+            after_tables = result if fn == 'atb' else build.anonymous_table_boxes(bt.make_real(copy.deepcopy(node)))
+            what = anonymous_table_violation(after_tables)
+            if what:
+                return what
         if fn == 'pipeline' and not malformed and not has_running(node):
-            return proper_children_violation(result) or tables_violation(result)
+            return self._pipeline_structure_violation(node, result)
         if fn == 'atb' and not has_running(node):
             return tables_violation(result)
         if fn == 'iib' and not malformed and not has_running(node):
@@ -1446,6 +1676,24 @@ class C08(PropCheck):
         if fn == 'bii' and not malformed and not has_running(node) and meta.get('prepared'):
             return bii_violation(result)
         return None
+
+    @staticmethod
+    def _pipeline_structure_violation(node, result):
+        """_sanity_checks on the result of create_anonymous_boxes.  The fix-ups give inline-level content a line
+        box only inside a block container, and split inline boxes around blocks only inside a line box: the
+        clause says nothing about the children of a bare inline box at the root of the tree (in a document the
+        root element's box is blockified), so the check starts below such boxes."""
+        from weasyprint.formatting_structure import boxes
+
+        def check(box):
+            if isinstance(box, boxes.InlineBox):
+                for child in box.children:
+                    what = check(child)
+                    if what:
+                        return what
+                return None
+            return proper_children_violation(box)
+        return check(result) or tables_violation(result)
 
     def _replay_wraptable(self, meta):
         build = build_mod()
@@ -1455,13 +1703,45 @@ class C08(PropCheck):
                                   'TableCaptionBox') for k in meta['kids']) and all(
             c[0] == 'TableCellBox' for g in meta['kids'] if g[0] in ('TableRowGroupBox', 'TableRowBox')
             for r in (g[6] if g[0] == 'TableRowGroupBox' else [g]) for c in r[6])
+        # the rows of every group and the stray rows, in document order, before the call
+        expected = []
+        for node, child in zip(meta['kids'], children):
+            if node[0] == 'TableRowGroupBox':
+                expected.append((node[1], [id(r) for r in child.children]))
+            elif node[0] == 'TableRowBox':
+                if expected and expected[-1][0] is None:
+                    expected[-1][1].append(id(child))
+                else:
+                    expected.append((None, [id(child)]))
+        source = ''.join(real_text_all(c) for c in children)
+        captions = [id(c) for n, c in zip(meta['kids'], children) if n[0] == 'TableCaptionBox']
         try:
             wrapper = build.wrap_table(tbox, children)
         except Exception as exc:  # noqa: BLE001
             return f'wrap_table raised {type(exc).__name__}' if well_typed else None
         if not wrapper.is_table_wrapper:
             return 'wrap_table did not return a table wrapper'
-        return tables_violation(wrapper)
+        what = tables_violation(wrapper)
+        if what or not well_typed:
+            return what
+        from weasyprint.formatting_structure import boxes
+        table = next(c for c in wrapper.children if isinstance(c, boxes.TableBox))
+        # CSS 2.1 17.2: the first header group first, the first footer group last, everything else in
+        # document order; every row, caption and character exactly once
+        header = next((e for e in expected if e[0] and 'h' in e[0]), None)
+        footer = next((e for e in expected if e[0] and 't' in e[0]), None)
+        order = ([header] if header else []) + [e for e in expected if e is not header and e is not footer] + (
+            [footer] if footer else [])
+        got = [[id(r) for r in g.children] for g in table.children]
+        if got != [rows for _, rows in order]:
+            return ('wrap_table does not keep the row groups in document order with the first header group first '
+                    f'and the first footer group last: groups of sizes {[len(r) for _, r in expected]} with displays '
+                    f'{[d for d, _ in expected]} -> sizes {[len(g) for g in got]}')
+        if sorted(id(c) for c in wrapper.children if isinstance(c, boxes.TableCaptionBox)) != sorted(captions):
+            return 'wrap_table lost or duplicated a caption'
+        if sorted(real_text_all(wrapper)) != sorted(source):
+            return f'wrap_table changed the text: {source!r} -> {real_text_all(wrapper)!r}'
+        return None
 
     def _replay_slots(self, meta):
         from weasyprint.formatting_structure import boxes
@@ -1476,12 +1756,28 @@ class C08(PropCheck):
                     for row in group]
             kids.append(['TableRowGroupBox', '-', 'normal', [None] * 3, '-', '', rows])
         tbox = bt.make_real(['TableBox', '-', 'normal', [None] * 3, '-', '', []])
-        wrapper = build.wrap_table(tbox, [bt.make_real(k) for k in kids])
+        tbox.style['border_collapse'] = 'collapse'
+        seen = {}
+        original = build.collapse_table_borders
+        build.collapse_table_borders = lambda tbl, width, height: seen.update(wh=(width, height))
+        try:
+            wrapper = build.wrap_table(tbox, [bt.make_real(k) for k in kids])
+        finally:
+            build.collapse_table_borders = original
         table = next(c for c in wrapper.children if isinstance(c, boxes.TableBox))
         for group in table.children:
             what = group_slots_violation(group)
             if what:
                 return what
+        # the grid is as wide as its widest row / its columns, and as high as its rows
+        edges = [c.grid_x + c.colspan for g in table.children for r in g.children for c in r.children]
+        columns = sum(len(g.children) if g.children else g.span for g in table.column_groups)
+        width, height = seen['wh']
+        if width != max(edges + [columns]):
+            return (f'grid_width {width} of a table whose cells end at column {max(edges + [0])} and which has '
+                    f'{columns} columns')
+        if height != sum(len(g.children) for g in table.children):
+            return f'grid_height {height} of a table with {sum(len(g.children) for g in table.children)} rows'
         return None
 
     # ---- search -----------------------------------------------------------------------------
@@ -1544,6 +1840,21 @@ class C08(PropCheck):
                     if what and report(what, {'meta': {'fn': 'thread', 'texts': [list(t) for t in texts]}},
                                        f'thread3/{t1!r}/{t2!r}/{t3!r}'):
                         return found
+        # a preserved run (pre / pre-wrap), an empty run or a pre-line run between two collapsible runs, flat and
+        # with runs in inline boxes of their own: only a *collapsible* space makes the next one go
+        for t1 in ('a ', 'a', ' ', 'a\n', ''):
+            for t2, ws2 in (('x', 'pre'), (' x ', 'pre'), ('x', 'pre-wrap'), (' ', 'pre-wrap'), ('x ', 'pre'),
+                            ('', 'normal'), ('', 'pre'), ('x', 'pre-line'), ('x\n', 'pre-line'), (' ', 'nowrap')):
+                for t3 in (' b', 'b', ' ', '\nb', '\tb'):
+                    for nested in ((), (1,), (0, 2)):
+                        for fcs in (False, True):
+                            run.search_stats['evaluations'] += 1
+                            texts = [[t1, 'normal'], [t2, ws2], [t3, 'normal']]
+                            what = threading_violation(texts, fcs, nested)
+                            if what and report(what, {'meta': {'fn': 'thread', 'texts': texts, 'fcs': fcs,
+                                                               'nested': list(nested)}},
+                                               f'thread-mixed/{t1!r}/{t2!r}/{ws2}/{t3!r}/{nested}/{fcs}'):
+                                return found
         # one short text run in every position where a rewriting step may drop text: first in a block
         # container, between two blocks, child of a flex / grid container, between table parts
         def leaf(kind, kids=()):
@@ -1572,6 +1883,58 @@ class C08(PropCheck):
                         what = f'oracle crashed: {type(exc).__name__}: {exc}'
                     if what and report(what, {'meta': meta}, f'corner/{fn}/{node[0]}/{text!r}/{ws}'):
                         return found
+        # misparented table parts under every kind of parent (rule 3.2: which anonymous table, which wrapper)
+        parents = ['BlockBox', 'InlineBox', 'InlineBlockBox', 'InlineFlexBox', 'InlineGridBox', 'FlexBox', 'GridBox',
+                   'TableCellBox', 'TableCaptionBox', 'TableRowBox', 'TableRowGroupBox']
+        parts = ['TableCellBox', 'TableRowBox', 'TableRowGroupBox', 'TableCaptionBox', 'TableColumnBox',
+                 'TableColumnGroupBox']
+        word = ['TextBox', 'A', 'normal', [None, None, None], '-', 'x', []]
+        for parent in parents:
+            for part in parts:
+                stray = leaf(parent, [word, leaf(part, [] if 'Column' in part else [word])])
+                for fn, node in (('atb', stray), ('pipeline', leaf('BlockBox', [word, stray]))):
+                    run.search_stats['evaluations'] += 1
+                    meta = {'fn': fn, 'tree': node}
+                    try:
+                        what = self._replay_tree(meta)
+                    except Exception as exc:  # noqa: BLE001
+                        what = f'oracle crashed: {type(exc).__name__}: {exc}'
+                    if what and report(what, {'meta': meta}, f'stray/{fn}/{parent}/{part}'):
+                        return found
+        # several header / footer groups in one table: only the first of each is lifted, nothing is lost
+        def group(letters, text):
+            cell = leaf('TableCellBox', [['TextBox', 'A', 'normal', [None, None, None], '-', text, []]])
+            return ['TableRowGroupBox', letters, 'normal', [None, None, None], '-', '', [leaf('TableRowBox', [cell])]]
+        for letters in itertools.product('-ht', repeat=4):
+            groups = [group(x, 'abcd'[i]) for i, x in enumerate(letters)]
+            for fn, node in (('atb', leaf('TableBox', groups)), ('pipeline', leaf('BlockBox', [leaf('TableBox', groups)]))):
+                run.search_stats['evaluations'] += 1
+                meta = {'fn': fn, 'tree': node}
+                try:
+                    what = self._replay_tree(meta)
+                except Exception as exc:  # noqa: BLE001
+                    what = f'oracle crashed: {type(exc).__name__}: {exc}'
+                if what and report(what, {'meta': meta}, f'groups/{fn}/{"".join(letters)}'):
+                    return found
+            run.search_stats['evaluations'] += 1
+            meta = {'fn': 'wraptable', 'table': leaf('TableBox'), 'kids': groups}
+            try:
+                what = self._replay_wraptable(meta)
+            except Exception as exc:  # noqa: BLE001
+                what = f'oracle crashed: {type(exc).__name__}: {exc}'
+            if what and report(what, {'meta': meta}, f'groups/wraptable/{"".join(letters)}'):
+                return found
+        # quotation marks: every sequence of up to three quote keywords, every `quotes` value, depth 0-3
+        for quotes in QUOTES:
+            for depth in range(4):
+                for n in (1, 2, 3):
+                    for keywords in itertools.product(sorted(set(CONTENT_ITEMS)), repeat=n):
+                        run.search_stats['evaluations'] += 1
+                        items = [['q', k] for k in keywords]
+                        what = content_violation(items, quotes, depth)
+                        if what and report(what, {'meta': {'fn': 'content', 'items': items, 'quotes': quotes,
+                                                           'depth': depth}}, f'content/{quotes}/{depth}/{keywords}'):
+                            return found
         # blockification and box classes
         for value in box_kinds.display_values():
             for float_ in box_kinds.FLOATS:
@@ -1626,6 +1989,22 @@ class C08(PropCheck):
                 if what and report(what, {'meta': {'fn': 'e2b', 'html': html, 'kids': kids, 'body_text': ''}},
                                    f'doc/{display}/{float_}'):
                     return found
+        # a misparented table part in every kind of container
+        for outer in ('block', 'inline', 'inline-block', 'inline-flex', 'inline-grid', 'flex', 'grid', 'table-cell',
+                      'list-item', 'flow-root'):
+            for part in ('table-cell', 'table-row', 'table-row-group', 'table-caption'):
+                stray = [part, 'none', 'static', 'normal', False, False, [None] * 3, 'x', [], 'y', {}, 1]
+                holder = [outer, 'none', 'static', 'normal', False, False, [None] * 3, 'w', [stray], 'z', {}, 2]
+                kids = [['block', 'none', 'static', 'normal', False, False, [None] * 3, '', [holder], '', {}, 3]]
+                html = document_html(kids, '')
+                run.search_stats['evaluations'] += 1
+                try:
+                    what = document_violation(html, kids, '')
+                except Exception as exc:  # noqa: BLE001
+                    what = f'build_formatting_structure raised {type(exc).__name__}: {exc}'
+                if what and report(what, {'meta': {'fn': 'e2b', 'html': html, 'kids': kids, 'body_text': ''}},
+                                   f'doc-stray/{outer}/{part}'):
+                    return found
         # rendered documents
         for _ in range(run.n(150, 1500)):
             kids = [random_dom(rng, rng.choice([1, 2, 3])) for _ in range(rng.choice([1, 2]))]
@@ -1665,9 +2044,7 @@ class C08(PropCheck):
             'colspan-overlaps-rowspan': finding_colspan_overlap,
             'blockify-inline-table-flex-grid': finding_blockify,
             'running-table-part-crash': finding_running_row,
-            'inline-table-item-loses-wrapper': finding_inline_table_item,
-            'unicode-space-between-table-parts-dropped': finding_nbsp_dropped,
-            'marker-display-none-crash': finding_marker_display_none,
+            'out-of-flow-container-spaces-not-collapsed': finding_out_of_flow_spaces,
         }
 
     def replay(self, data):
@@ -1686,8 +2063,11 @@ class C08(PropCheck):
             return ws_violation(meta['ws'], meta['text'], meta['fcs'], box.text)
         if fn == 'cap':
             return capitalize_violation(meta['text'], build_mod().capitalize(meta['text']))
+        if fn == 'content':
+            return content_violation(meta['items'], meta['quotes'], meta['depth'])
         if fn == 'thread':
-            return threading_violation([tuple(t) for t in meta['texts']])
+            return threading_violation([tuple(t) for t in meta['texts']], meta.get('fcs', False),
+                                       tuple(meta.get('nested', ())))
         if fn == 'blockify':
             m = self._blockify_meta(meta['value'], meta['float'], meta['position'], meta['root'])
             return blockify_violation(m['value'], m['float'], m['position'], m['root'], m['result'])
@@ -1946,6 +2326,31 @@ def reference_content(p, attrs, depth):
     return out, depth
 
 
+def content_violation(items, quotes, depth):
+    """CSS 2.1 12.2 / 12.3.2 on the real content_to_boxes: the generated text is the concatenation of the strings
+    and of the quotation marks of the current nesting level (the last pair beyond the last level), and
+    the nesting level after the list is the one the keywords lead to (never below zero)."""
+    from weasyprint.css.counters import CounterStyle
+    from weasyprint.css.targets import TargetCollector
+    from weasyprint.formatting_structure import boxes
+    style = bt.style_from('-', 'normal')
+    style['content'] = tuple(('string', v) if k == 's' else ('quote', v) for k, v in items)
+    style['quotes'] = quotes if isinstance(quotes, str) else (tuple(quotes[0]), tuple(quotes[1]))
+    style['lang'] = None
+    parent = boxes.InlineBox('span', style, None, [])
+    state = [depth]
+    try:
+        result = build_mod().content_to_boxes(style, parent, state, {}, None, TargetCollector(), CounterStyle())
+    except Exception as exc:  # noqa: BLE001
+        return f'content_to_boxes raised {type(exc).__name__} on content {items!r} with quotes {quotes!r} at depth {depth}'
+    got = ''.join(b.text for b in result)
+    want, want_depth = reference_content({'content': items, 'quotes': quotes}, [None] * 3, depth)
+    if got != want or state[0] != want_depth:
+        return (f'content {items!r} with quotes {quotes!r} at depth {depth} generates {got!r} and leaves depth '
+                f'{state[0]}, expected {want!r} and depth {want_depth}')
+    return None
+
+
 def generated_segments(kids):
     """Text runs produced by ::marker / ::before / ::after, in document order: (text, white-space, may_vanish)."""
     out = []
@@ -1973,7 +2378,7 @@ def generated_segments(kids):
             return
         marker(node, p['display'])
         text, state['depth'] = reference_content(p, node[6], state['depth'])
-        white = all(c in CSS_WHITE for c in text) or re.search('\\S', text) is None
+        white = all(c in CSS_WHITE for c in text)
         out.append((text, p['ws'], white))
 
     def visit(node):
@@ -2062,8 +2467,7 @@ def dom_segments(kids, body_text):
             if not text:
                 continue
             css_white = all(c in CSS_WHITE for c in text)
-            py_white = re.search('\\S', text) is None
-            out.append((text, ws, (css_white and (item_context or table_context)) or (py_white and table_context)))
+            out.append((text, ws, css_white and (item_context or table_context)))
 
     def visit(node):
         display = node[0]
@@ -2091,7 +2495,7 @@ def document_text_violation(kids, body_text, trees, capital):
     required = collections.Counter()
     for text, ws, may_vanish in dom_segments(kids, body_text):
         if not may_vanish:
-            chars = ''.join(required_chars(text, ws, processed_by_pw=True)).replace('\xad', '')
+            chars = ''.join(required_chars(text, ws, processed_by_pw='every-run')).replace('\xad', '')
             required.update(chars.upper() if capital else chars)
     missing = required - collections.Counter(got.upper() if capital else got)
     if missing:
@@ -2115,7 +2519,7 @@ def document_violation(html, kids, body_text, rendered=False):
         what = proper_children_violation(tree) if not rendered else None
         what = what or tables_violation(tree)
         if not what and not rendered:
-            what = dom_structure_violation(tree, kids)
+            what = dom_structure_violation(tree, kids) or document_anonymous_table_violation(tree)
         if what:
             return what
     wide = any(dom_has(k, lambda n: tt_of(n) == 'full-width' or any(
@@ -2142,18 +2546,9 @@ def document_violation(html, kids, body_text, rendered=False):
 
 
 def known_document(kids):
-    """Documents in the scope of the known findings running-table-part-crash (running elements are never
-    fixed up) and inline-table-item-loses-wrapper (inline-table child of a flex / grid container)."""
-    def item(n):
-        return n[0] in ('flex', 'inline-flex', 'grid', 'inline-grid') and any(
-            c[0] == 'inline-table' for c in n[8])
-    def marker_none(n):
-        m = extra(n).get('marker')
-        if not m or m['display'] != 'none':
-            return False
-        owners = [n[0]] + [(extra(n).get(name) or {}).get('display', '') for name in ('before', 'after')]
-        return any('list-item' in d for d in owners)      # known finding marker-display-none-crash
-    return any(dom_has(k, lambda n: n[2] == 'running' or item(n) or marker_none(n)) for k in kids)
+    """Documents in the scope of the known finding running-table-part-crash (running elements are never
+    fixed up)."""
+    return any(dom_has(k, lambda n: n[2] == 'running') for k in kids)
 
 
 def finding_running_row():
@@ -2165,36 +2560,17 @@ def finding_running_row():
     return False
 
 
-def finding_inline_table_item():
-    """<div style="display:flex"><div style="display:inline-table">a</div></div>: the table is left in a
-    plain block (no table wrapper); layout then raises TypeError."""
+def finding_out_of_flow_spaces():
+    """<div style="float:left">a <span> b</span></div>: the text boxes 'a ' and ' b' (two collapsible spaces
+    in a row) where the same content in normal flow gives 'a ' and 'b'."""
     from weasyprint.formatting_structure import boxes
-    root = formatting_structure('<div style="display:flex"><div style="display:inline-table">a</div></div>')
-    for box in root.descendants():
-        for child in getattr(box, 'children', ()):
-            if isinstance(child, boxes.TableBox) and not box.is_table_wrapper:
-                return True
-    return False
 
-
-def finding_nbsp_dropped():
-    """A no-break space between two table rows is text, not CSS white space, yet it is removed."""
-    root = formatting_structure(
-        '<div style="display:table"><div style="display:table-row">a</div>&nbsp;'
-        '<div style="display:table-row">b</div></div>')
-    return '\xa0' not in real_text(root)
-
-
-def finding_marker_display_none():
-    """<style>li::marker{display:none}</style><ul><li>a: KeyError ('none',) in marker_to_box."""
-    import json
-    from vlib.paths import CORPUS
-    html = json.loads((CORPUS / 'C08' / 'marker_display_none_crash.json').read_text())['html']
-    try:
-        formatting_structure(html)
-    except KeyError:
-        return True
-    return False
+    def texts(html):
+        root = formatting_structure(html)
+        return [b.text for b in root.descendants() if isinstance(b, boxes.TextBox)]
+    floated = texts('<div style="float:left">a <span> b</span></div>')
+    in_flow = texts('<div>a <span> b</span></div>')
+    return in_flow == ['a ', 'b'] and floated == ['a ', ' b']
 
 
 def finding_colspan_overlap():
@@ -2245,13 +2621,18 @@ MANIFEST = {
             'must go (build_formatting_structure_text); the model never runs out of fuel: block_in_inline, '
             'table_boxes_children (5m+14 steps for m children) and build_formatting_structure terminate on every '
             'tree, so every model failure is one of the Python exceptions; content: laws (append, strings, quote '
-            'depth; attr() enters as its computed string). Replaced-element handlers, counters / target-* / url() in content, first-letter / first-line '
+            'depth; attr() enters as its computed string); rule 3.2: the anonymous table around misparented table '
+            'parts is an inline-table in an inline-block exactly inside inline boxes; flex_boxes / grid_boxes keep '
+            'every table in a table wrapper; is_whitespace = CSS white space for every code point. Replaced-element handlers, counters / target-* / url() in content, first-letter / first-line '
             'and collapsed borders are outside the model (correspondence on documents only for the first two).',
     'note': 'Trusted: Lean kernel, the AST/graph translators (box_kinds, char_table, content_tables), the kind-tree '
             'abstraction of real boxes, the fixed alphabet for Unicode categories. Loops that are not structurally '
             'recursive run with fuel; sufficiency of the fuel is proved (C08Pipeline). Known findings: '
             'colspan > 1 under a row-spanning cell shares slots; floated / absolute inline-table, inline-flex, '
-            'inline-grid compute to block flow; running() table parts are never fixed up (AttributeError); an '
-            'inline-table flex / grid item loses its table wrapper (TypeError in layout); NBSP-like text between table '
-            'parts is deleted; ::marker { display: none } raises KeyError.',
+            'inline-grid compute to block flow; running() table parts are never fixed up (AttributeError); inside a '
+            'floated / absolutely positioned box collapsible spaces of sibling runs are not collapsed against each '
+            'other. Repaired and kept as regression cases (corpus/C08/regressions.json, first section): an inline-table '
+            'flex / grid item keeps its table wrapper; only CSS white space is ignorable between table parts (the '
+            'character class of is_whitespace is the graph of the real function and is proved to be CSS white space); '
+            '::marker { display: none } generates no box.',
 }
